@@ -27,15 +27,46 @@ def gen_config(kind, rng: random.Random, thorough=False):
         return {'kind': kind, 'shape': shape, 'dim': [d - rank if rng.random() < 0.5 else d for d in dims], 'recon': [shape[d] for d in dims],
                 'enc': [rng.randint(1, 6) for _ in dims], 'seed': seed}
     if kind == 'fourier_nufft':
-        return {'kind': kind, 'ny': rng.choice([6, 8]), 'nx': rng.choice([6, 8]), 'k1': rng.randint(2, 3), 'k0': rng.randint(4, 6), 'seed': seed}
+        return {'kind': kind, 'ny': rng.choice([6, 8]), 'nx': rng.choice([6, 8]), 'k1': rng.randint(2, 3), 'k0': rng.randint(4, 6),
+                'coils': rng.choice([1, 1, 2]), 'other': rng.choice([1, 1, 2]), 'seed': seed}
     if kind == 'gridsample':
         return {'kind': kind, 'dim': rng.choice([2, 3]), 'mode': rng.choice(['bilinear', 'nearest', 'bicubic']), 'padding': rng.choice(['zeros', 'border', 'reflection']),
-                'align': rng.random() < 0.5, 'seed': seed}
+                'align': rng.random() < 0.5, 'batch': rng.choice([1, 1, 2]), 'channels': rng.choice([1, 1, 2]), 'seed': seed}
     if kind == 'sliceproj':
-        return {'kind': kind, 'n': rng.choice([4, 5]), 'fwhm': rng.choice([1.0, 2.0, 3.0]), 'generic': rng.random() < 0.5, 'optimize_for': rng.choice(['forward', 'adjoint', 'both']), 'seed': seed}
+        return {'kind': kind, 'n': rng.choice([4, 5]), 'fwhm': rng.choice([1.0, 2.0, 3.0]), 'generic': rng.random() < 0.5, 'optimize_for': rng.choice(['forward', 'adjoint', 'both']),
+                'batch': rng.choice([[], [], [2], [1, 2], [3]]), 'seed': seed}
     if kind == 'pca':
-        return {'kind': kind, 'coils': rng.randint(2, 5), 'n': rng.randint(1, 3), 'samples': rng.randint(6, 12), 'seed': seed}
+        return {'kind': kind, 'coils': rng.randint(2, 5), 'n': rng.randint(1, 3), 'samples': rng.randint(6, 12), 'lead': rng.choice([[], [], [2], [2, 1]]), 'seed': seed}
     raise KeyError(kind)
+
+
+def force_batch(cfg, rng: random.Random):
+    """the same configuration with non-trivial batch / channel / coil dimensions (every kernel operator accepts them)"""
+    cfg = dict(cfg)
+    k = cfg['kind']
+    if k == 'wavelet':
+        cfg['batch'] = 2
+    elif k == 'fourier_nufft':
+        cfg['coils'], cfg['other'] = 2, rng.choice([1, 2])
+    elif k == 'gridsample':
+        cfg['batch'], cfg['channels'] = 2, rng.choice([1, 2])
+    elif k == 'sliceproj':
+        cfg['batch'] = rng.choice([[2], [3], [2, 2]])
+    elif k == 'pca':
+        cfg['lead'] = rng.choice([[2], [2, 1]])
+    elif k == 'fft' and len(cfg['shape']) == len(cfg['dim']):
+        cfg['shape'] = [2, *cfg['shape']]
+        cfg['dim'] = [d if d < 0 else d + 1 for d in cfg['dim']]
+    return cfg
+
+
+def gen_configs(kind, rng: random.Random, n: int):
+    """n configurations of a kind; every second one is forced to carry batch dimensions"""
+    out = []
+    for i in range(n):
+        c = gen_config(kind, rng)
+        out.append(force_batch(c, rng) if i % 2 == 1 else c)
+    return out
 
 
 def build(cfg):
@@ -65,7 +96,8 @@ def build(cfg):
         ky = torch.tensor([rng.uniform(-ny / 2, ny / 2 - 0.01) for _ in range(k1 * k0)], dtype=torch.float64).reshape(1, 1, k1, k0)
         traj = KTrajectory(torch.zeros(1, 1, 1, 1, dtype=torch.float64), ky, kx, repeat_detection_tolerance=None)
         op = mrpro.operators.FourierOp(SpatialDimension(1, ny, nx), SpatialDimension(1, ny, nx), traj)
-        return op, [1, 1, 1, ny, nx], [1, 1, 1, k1, k0], 1e-6
+        o, c = cfg.get('other', 1), cfg.get('coils', 1)
+        return op, [o, c, 1, ny, nx], [o, c, 1, k1, k0], 1e-6
     if kind == 'gridsample':
         dim = cfg['dim']
         ishape = [rng.randint(2, 3) for _ in range(dim)]
@@ -74,13 +106,16 @@ def build(cfg):
         grid = torch.tensor([rng.uniform(-1.3, 1.3) for _ in range(math.prod(oshape) * dim)], dtype=torch.float64).reshape(1, *oshape, dim)
         sd = SpatialDimension(*(([1] if dim == 2 else []) + ishape))
         op = mrpro.operators.GridSamplingOp(grid, sd, interpolation_mode=mode, padding_mode=cfg['padding'], align_corners=cfg['align'])
-        return op, [1, 1, *ishape], [1, 1, *oshape], 1e-9
+        b, c = cfg.get('batch', 1), cfg.get('channels', 1)
+        return op, [b, c, *ishape], [b, c, *oshape], 1e-9
     if kind == 'sliceproj':
         n = cfg['n']
         rot = Rotation.from_euler('xyz', [rng.uniform(0, 90) for _ in range(3)], degrees=True) if cfg['generic'] else None
         op = mrpro.operators.SliceProjectionOp(SpatialDimension(n, n, n), slice_rotation=rot, slice_shift=rng.choice([0.0, 0.5]), slice_profile=cfg['fwhm'],
                                                optimize_for=cfg['optimize_for'])
-        return op, [n, n, n], [1, 1, n, n], 1e-5
+        dom = [*cfg.get('batch', []), n, n, n]
+        (y,) = op(torch.zeros(dom, dtype=torch.complex64))
+        return op, dom, list(y.shape), 1e-5
     if kind == 'pca':
         c, n, s = cfg['coils'], min(cfg['n'], cfg['coils']), cfg['samples']
         data = torch.tensor([complex(rng.gauss(0, 1), rng.gauss(0, 1)) for _ in range(s * c)], dtype=torch.complex128).reshape(s, c)
@@ -88,7 +123,8 @@ def build(cfg):
         data = data @ torch.diag(torch.tensor([3.0 ** (-i) for i in range(c)], dtype=torch.complex128)) @ mix
         op = mrpro.operators.PCACompressionOp(data, n)
         op._verif_data = data
-        return op, [c], [n], 1e-9
+        lead = cfg.get('lead', [])
+        return op, [*lead, c], [*lead, n], 1e-9
     raise KeyError(kind)
 
 
